@@ -166,13 +166,34 @@ class Evaluator:
     def ev_Call(self, e, env):
         if any(isinstance(a, ast.Starred) for a in e.args) or any(k.arg is None for k in e.keywords):
             raise NotConstant('star args')
-        args = [self.ev(a, env) for a in e.args]
-        kw = {k.arg: self.ev(k.value, env) for k in e.keywords}
         f = e.func
+        is_map = isinstance(f, ast.Name) and f.id in ('map', 'filter') and f.id not in env and len(e.args) == 2 and not e.keywords
+        args = [None if is_map and i == 0 else self.ev(a, env) for i, a in enumerate(e.args)]
+        kw = {k.arg: self.ev(k.value, env) for k in e.keywords}
         if isinstance(f, ast.Name) and f.id not in env and f.id not in _PURE and self.funcs is not None:
             fd = self.funcs(f.id)
             if fd is not None:
                 return self.call_pure(fd, args, kw)
+        if isinstance(f, ast.Attribute) and isinstance(f.value, ast.Name) and f.value.id == 're' and f.attr == 'escape' and 're' not in env \
+                and len(args) == 1 and not kw and isinstance(args[0], (str, bytes)):
+            import re as _re
+            return _re.escape(args[0])
+        if isinstance(f, ast.Name) and f.id in ('map', 'filter') and f.id not in env and len(e.args) == 2 and not kw:
+            # map / filter with a pure function written by name (re.escape, a whitelisted builtin, str.strip ...) over a constant sequence
+            g = e.args[0]
+            xs = list(args[1]) if isinstance(args[1], (list, tuple, str, frozenset)) else None
+            if xs is None:
+                raise NotConstant('map over ' + ast.unparse(e.args[1]))
+            def one(x):
+                if isinstance(g, ast.Constant) and g.value is None and f.id == 'filter':
+                    return x
+                call = ast.Call(func=g, args=[ast.Constant(value=x)], keywords=[])
+                if isinstance(g, ast.Attribute) and isinstance(g.value, ast.Name) and g.value.id in ('str', 'bytes') and g.attr in _STR_METHODS:
+                    call = ast.Call(func=ast.Attribute(value=ast.Constant(value=x), attr=g.attr, ctx=ast.Load()), args=[], keywords=[])
+                return self.ev(call, env)
+            if not all(isinstance(x, (str, bytes, int, tuple)) for x in xs):
+                raise NotConstant('map over non-constants')
+            return [one(x) for x in xs] if f.id == 'map' else [x for x in xs if one(x)]
         try:
             if isinstance(f, ast.Name) and f.id in _PURE and f.id not in env:
                 return _PURE[f.id](*args, **kw)
